@@ -244,6 +244,17 @@ func (env *SpecEnv) eval(x *SExpr) (Val, error) {
 	case "bin":
 		return env.evalBin(x)
 	case "sel":
+		// caller.x inside a call-site condition: the caller's x even when the callee has a parameter x
+		if x.Args[0].Op == "id" && x.Args[0].Tok == "caller" {
+			if v, ok := env.vars["caller."+x.Tok]; ok {
+				return v, nil
+			}
+			if _, ok := env.vars["caller.&"+x.Tok]; ok {
+				sub := env.child()
+				sub.vars = map[string]Val{"&" + x.Tok: env.vars["caller.&"+x.Tok]}
+				return sub.evalIdent(x.Tok)
+			}
+		}
 		// package-qualified identifier?
 		if x.Args[0].Op == "id" {
 			if _, isVar := env.vars[x.Args[0].Tok]; !isVar {
